@@ -207,7 +207,12 @@ def step (st : St) (line : String) : St × String :=
         match randomize st.D st.s draws with
         | .found s => ({ st with s := s }, s!"found {dump s}")
         | .attemptLimit s => ({ st with s := s }, s!"attempt-limit {dump s}")
-        | .outOfDraws s => ({ st with s := s }, s!"out-of-draws {dump s}")
+        | .outOfDraws s =>
+          -- the limit-seeking loop has nothing left to toggle (every action already at the loop's target) and attempts
+          -- remain: the pinned code spins there for ever (`continue` without using an attempt).  Non-termination is outside
+          -- every property; an implementation that returns instead is not judged by this model: BOUNDARY
+          if s.flags.all (fun f => f == hasCostLimit st.D) then ({ st with dead := true }, "BOUNDARY")
+          else ({ st with s := s }, s!"out-of-draws {dump s}")
       | none => (st, "bad-op")
     | _ => (st, "bad-op")
 
